@@ -80,6 +80,10 @@ static double cdf1(int id, double x, double a, double b)
 		case 3: return x / (1.0 + x);
 		case 20: return (1.0 - std::exp(-x)) / (1.0 - std::exp(-b));   // truncated exponential on [0,b]
 		case 21: return (x - a) / (b - a);
+		// non-linear CDFs of the relative position t = (x-a)/(b-a): usable on domains far from the origin
+		case 22: { double t = (x - a) / (b - a); double t2 = t * t, t4 = t2 * t2; return t4 * t4; }
+		case 23: { double t = (x - a) / (b - a); return t * t; }
+		case 24: { double t = 1.0 - (x - a) / (b - a); return 1.0 - t * t * t; }
 	}
 	return x;
 }
